@@ -4,7 +4,6 @@ from glob import glob
 import queue
 import os
 import time
-from inspect import isawaitable
 
 from tornado import gen
 import weakref
@@ -262,9 +261,9 @@ class from_tcp(Source):
                 while not self.source.stopped:
                     try:
                         data = await stream.read_until(self.source.delimiter)
-                        result = self.source._emit(data)
-                        if isawaitable(result):
-                            await result
+                        # _emit returns the list of what the consumers hand back: wait for all of it
+                        # before reading the next record (as the other sources do)
+                        await asyncio.gather(*self.source._emit(data))
                     except StreamClosedError:
                         break
 
